@@ -352,11 +352,10 @@ class Pregex():
             key-value pair will be ``name --> (None, -1, -1)``.
         '''
         for match in self.__iterate_match_objects(source, is_path):
-            groups, counter = dict(), 0
+            groups = dict()
             for k, v in match.groupdict().items():
-                counter += 1
                 if include_empty or (v != ''):
-                    start, end = match.span(counter)
+                    start, end = match.span(k)
                     if relative_to_match and start > -1:
                         start, end = start - match.start(0), end - match.start(0)
                     groups.update({k: (v, start, end)})
